@@ -215,22 +215,20 @@ Theorem C17_mean_linear_in_hull ps lw r lo hi : (r < lin)%nat -> length lw = len
   lo <= nth r (meanR ps lw) 0 <= hi.
 Proof. exact (mean_linear_between lin circ ps lw r lo hi). Qed.
 
-(* circular rows: the circular (directional) mean — argument of the weighted resultant; a single particle as is *)
+(* circular rows: the circular (directional) mean — argument of the weighted resultant; a single particle wrapped *)
 Theorem C17_mean_circular ps lw r : (lin <= r < lin + circ)%nat ->
   nth r (meanR ps lw) 0 =
-  if Nat.eqb (length ps) 1 then nth r (nth 0 ps []) 0
+  if Nat.eqb (length ps) 1 then atan2 (sin (nth r (nth 0 ps []) 0)) (cos (nth r (nth 0 ps []) 0))
   else atan2 (rdot (map sin (prow ROps r ps)) (map exp lw)) (rdot (map cos (prow ROps r ps)) (map exp lw)).
 Proof. exact (mean_circular lin circ ps lw r). Qed.
 
-(* circular rows live on the circle: in (-PI, PI] unless there is exactly ONE particle, whose angle is returned
-   as it is (directional_mean's single-column branch) — congruent modulo 2 PI to its directional mean *)
+(* circular rows live on the circle: EVERY circular output of mean lies in (-PI, PI], also with one particle,
+   whose angle is then returned as its principal value (congruent modulo 2 PI); /repo dee9c81 *)
 Theorem C17_mean_circular_on_circle ps lw r : (lin <= r < lin + circ)%nat ->
   let x := nth r (meanR ps lw) 0 in
-  (length ps <> 1%nat -> - PI < x <= PI) /\
-  (forall p l, ps = [p] -> lw = [l] ->
-     x = nth r p 0 /\
-     exists k : Z, atan2 (rdot (map sin (prow ROps r ps)) (map exp lw)) (rdot (map cos (prow ROps r ps)) (map exp lw))
-                   = x + 2 * IZR k * PI).
+  - PI < x <= PI /\
+  (forall p, ps = [p] -> x = atan2 (sin (nth r p 0)) (cos (nth r p 0)) /\
+                         exists k : Z, x = nth r p 0 + 2 * IZR k * PI).
 Proof. exact (mean_circular_on_circle lin circ ps lw r). Qed.
 
 Theorem C17_mean_size ps lw : length (meanR ps lw) = (lin + circ)%nat.
@@ -310,7 +308,7 @@ Theorem C17_windowed_is_convex_combination (lin circ : nat) (ops : list (op ROps
   (v = Wsimple -> forall i, (i < n)%nat -> nth i W 0 = / INR n) /\
   (forall k, (k < lin)%nat -> nth k (snd r) 0 = rdot (prow ROps k H) W) /\
   (forall k, (lin <= k < lin + circ)%nat ->
-     nth k (snd r) 0 = if Nat.eqb n 1 then nth k (nth 0 H []) 0
+     nth k (snd r) 0 = if Nat.eqb n 1 then atan2 (sin (nth k (nth 0 H []) 0)) (cos (nth k (nth 0 H []) 0))
                        else atan2 (rdot (map sin (prow ROps k H)) W) (rdot (map cos (prow ROps k H)) W)).
 Proof. exact (windowed_convex lin circ v s _ ps lw plw lik Tm (reachable_inv ROps lin circ ops)). Qed.
 
@@ -330,12 +328,12 @@ Theorem C17_windowed_extract_end_to_end (lin circ : nat) (ops : list (op ROps)) 
   (v = Wsimple -> forall i, (i < n)%nat -> nth i W 0 = / INR n) /\
   (forall k, (k < lin)%nat -> nth k (snd (snd r)) 0 = rdot (prow ROps k H) W) /\
   (forall k, (lin <= k < lin + circ)%nat ->
-     nth k (snd (snd r)) 0 = if Nat.eqb n 1 then nth k (nth 0 H []) 0
+     nth k (snd (snd r)) 0 = if Nat.eqb n 1 then atan2 (sin (nth k (nth 0 H []) 0)) (cos (nth k (nth 0 H []) 0))
                              else atan2 (rdot (map sin (prow ROps k H)) W) (rdot (map cos (prow ROps k H)) W)).
 Proof. exact (extract_windowed_rows lin circ ops o v e). Qed.
 
-(* windowed circular output: in (-PI, PI] when at least two estimates are stored; with exactly ONE stored estimate
-   (first windowed call after construction / clear) it is that estimate's angle, unwrapped but congruent mod 2 PI *)
+(* EVERY windowed circular output lies in (-PI, PI], also with exactly one stored estimate (first windowed call
+   after construction / clear), which is then returned as its principal value *)
 Theorem C17_windowed_circular_on_circle (lin circ : nat) (ops : list (op ROps)) (o : op ROps) v e :
   let st := run ROps lin circ (est_init ROps) ops in
   match o with OExtract2 _ _ | OExtract5 _ _ _ _ _ => True | _ => False end ->
@@ -343,10 +341,9 @@ Theorem C17_windowed_circular_on_circle (lin circ : nat) (ops : list (op ROps)) 
   let r := step ROps lin circ st o in
   let n := length (buf (hb (fst r))) in
   forall k, (lin <= k < lin + circ)%nat ->
-    (n <> 1%nat -> - PI < nth k (snd (snd r)) 0 <= PI) /\
-    (n = 1%nat -> nth k (snd (snd r)) 0 = nth k e 0 /\
-                  exists z : Z, atan2 (rdot (map sin [nth k e 0]) [1]) (rdot (map cos [nth k e 0]) [1])
-                                = nth k (snd (snd r)) 0 + 2 * IZR z * PI).
+    - PI < nth k (snd (snd r)) 0 <= PI /\
+    (n = 1%nat -> nth k (snd (snd r)) 0 = atan2 (sin (nth k e 0)) (cos (nth k e 0)) /\
+                  exists z : Z, nth k (snd (snd r)) 0 = nth k e 0 + 2 * IZR z * PI).
 Proof. exact (windowed_circular_on_circle lin circ ops o v e). Qed.
 
 (* the weighted variant in closed form: 2(n-i)/(n(n+1)) *)
